@@ -450,10 +450,11 @@ def run_case(case, ob, tier):
     ob.fact('conditional-state-reset-after-block', C._depth == 0 and C._conditions_list_stack == [[]], site + ':state-leak')
     if overlap:
         ob.fact('overlapping-assignments-rejected', err is not None, site + ':overlap-accepted')
-    elif plain_shape(from_json(case['shape'])):
+    elif plain_shape(from_json(case['shape'])) and not case.get('shared'):
         # a program whose assigning branches can never be active together (decided by the solver over the tree shape) is one
         # of the programs the property speaks about: it must elaborate. (PyRTL refuses an `otherwise` that directly follows
-        # another `otherwise` whatever is assigned: those shapes are not held to this)
+        # another `otherwise` whatever is assigned, and its exclusivity test is syntactic: with one predicate wire used at several
+        # places two branches can be exclusive without looking so. Neither kind of program is held to this)
         ob.fact('mutually-exclusive-program-accepted', err is None, site + ':rejected', detail=repr(err))
     if err is not None:
         ob.notes.append('rejected programs are not checked further')
